@@ -152,9 +152,9 @@ def variant_preservation(ctx):
     rnd = F.fn('core::RightSecretKey::random')
     # Hybridized built exactly on the true edge of the `hybridize` parameter
     hp = None
-    for v in rnd.vars:
-        if v['name'] == 'hybridize' and v['arg'] is not None:
-            hp = v['pl']['l']
+    for pi in range(1, rnd.argc + 1):
+        if rnd.local_ty(pi) == 'bool':
+            hp = pi
     sws = switch_on(rnd, hp) if hp is not None else []
     ok = False
     if len(sws) == 1:
@@ -286,7 +286,12 @@ def selection(ctx):
     sk = F.fn('core::MasterPublicKey::select_subkeys')
     fam = F.family(sk.key)
     # the flag local in select_subkeys
-    flag = [v['pl']['l'] for v in sk.vars if v['name'] == 'is_hybridized' and not v['pl']['p']]
+    flag = []
+    for b in sorted(sk.live_blocks()):
+        for st in sk.stmts(b):
+            rv = st['rv']
+            if rv['k'] == 'ref' and rv['mut'] and sk.local_ty(rv['pl']['l']) == 'bool' and not rv['pl']['p'] and rv['pl']['l'] not in flag:
+                flag.append(rv['pl']['l'])
     ctx.check(len(flag) == 1, sk.key, 'flag local', 'select_subkeys has no `is_hybridized` accumulator', '', sk.where())
     if len(flag) == 1:
         inits = [d for d in sk.defs().get(flag[0], []) if d.kind == 'assign' and d.via is None and not d.lhs['p']]
